@@ -54,6 +54,11 @@ def _init(cid, seed):
         from vtk import build
 
         build.load(variant)
+    else:
+        from vtk import build
+
+        if sys.path[0] != build.REPO:
+            sys.path.insert(0, build.REPO)
     if hasattr(_mod, "worker_init"):
         _mod.worker_init()
 
